@@ -6,7 +6,9 @@ Open Scope Z_scope.
 
 Inductive case :=
 | Case (strat : strategy) (force : list field) (feats : list row) (impl : result tables)
-| CaseGtf (strat : strategy) (force : list field) (feats : list row) (impl : result tables).   (* GTF importer, inference off *)
+| CaseGtf (strat : strategy) (force : list field) (feats : list row) (impl : result tables)   (* GTF importer, inference off *)
+(* "in create_db and in update alike": the first batch through create_db, the second through FeatureDB.update on the reopened file *)
+| Case2 (gtf : bool) (strat : strategy) (force : list field) (feats1 feats2 : list row) (impl : result tables).
 
 Definition IDK : str := [73;68]%N.
 Definition id_clean (s : str) : bool := negb (existsb (fun c => N.eqb c 9 || N.eqb c 10 || N.eqb c 13) s).
@@ -34,6 +36,23 @@ Definition verdict (c : case) : Z :=
     | _ =>
       if negb (match m with Ok st => forallb (fun r => id_clean (r_id r)) (s_rows st) | _ => true end) then V_OUT else
       if res_matches (is_merge strat) m impl then V_OK else V_BAD
+    end
+    end
+  | Case2 gtf strat force feats1 feats2 impl =>
+    match feats1, feats2 with [], _ => V_OUT | _, [] => V_OUT | _, _ =>
+    let g := mkGtf GtfSpec.TRANSCRIPT_ID GtfSpec.GENE_ID [101;120;111;110]%N true true in
+    let imp := fun fs st => if gtf then import_gtf call_table g strat force GtfSpec.default_gtf_spec fs st
+                            else import_gff call_table strat force (SList [KAttr IDK]) fs st in
+    match imp feats1 empty_st with
+    | Err _ => V_OUT                                   (* the first batch alone is the plain Case *)
+    | Ok st1 =>
+        let m := imp feats2 st1 in
+        match m with
+        | Err EOther => V_OUT
+        | _ =>
+          if negb (match m with Ok st => forallb (fun r => id_clean (r_id r)) (s_rows st) | _ => true end) then V_OUT else
+          if res_matches (is_merge strat) m impl then V_OK else V_BAD
+        end
     end
     end
   end.
